@@ -639,6 +639,10 @@ pub fn run(args: &Args) -> i32 {
         ev.merge(p);
     }
     ev.count("limit_sequences_exhaustive_up_to_length", maxlen as u64);
+    // the serial client's inter-frame silence vs. short timeouts, on a real pty (net engine)
+    if args.replay.is_none() {
+        crate::util::merge_net_leg(&mut ev, args, "c12serial");
+    }
     let meta = Meta {
         property_id: "C12",
         level: "exploration",
@@ -653,6 +657,7 @@ pub fn run(args: &Args) -> i32 {
             ("timeouts_checked_against_deadline".into(), args.tier.pick(200_000, 5_000_000)),
             ("in_time_replies_accepted".into(), args.tier.pick(200_000, 5_000_000)),
             ("limit_sequences".into(), args.tier.pick(1_500, 25_000)),
+            ("serial_gap_scenarios".into(), args.tier.pick(6, 36)),
         ],
         min_classes: 40,
     };
